@@ -2,7 +2,15 @@
    (RaftLog<MemStorage>).  The store is the MemStorage model; its two test
    triggers (trigger_snap_unavailable / trigger_log_unavailable) are assumed
    off, so storage reads do not change the store.  Debug-build semantics:
-   fatal!/assert!/index/overflow are [Panic site] values.  No proofs here. *)
+   fatal!/assert!/index/overflow are [Panic site] values.
+   Arithmetic: every [u64] addition/subtraction whose operands come from the
+   caller (idx + 1, idx + len, since + 1, persisted + limit, conflict - (idx+1),
+   ents[0].index - 1, last + 1 - first, conflict_index -= 1) is an explicit
+   overflow/underflow site.  Documented assumption for the remaining ones
+   (snapshot.index + 1, offset + entries.len(), last entry index + 1, store
+   last_index + 1 in [new]): indexes held in the log are < 2^64 - 1 - length, so
+   they do not wrap (the differential harness keeps stored indexes < 2^62).
+   No proofs here. *)
 From RV Require Import Base.Prelude M.Util M.MemStorage.
 
 Local Open Scope N_scope.
@@ -244,12 +252,16 @@ Definition maybe_append (l : raft_log) (i t cmt : N) (ents : list entry)
   l1 <- (if ci =? 0 then Ok l
          else if ci <=? committed l then Panic site_l_append_conflict
          else
+           if i =? u64_max then Panic site_l_overflow else          (* idx + 1 *)
+           if ci <? i + 1 then Panic site_l_underflow else          (* conflict_idx - (idx + 1) *)
+           (* &ents[start..]: compared in N so that a huge start is not converted to nat *)
+           if N.of_nat (length ents) <? ci - (i + 1) then Panic site_l_sub_slice else
            let start := N.to_nat (ci - (i + 1)) in
-           if (length ents <? start)%nat then Panic site_l_sub_slice else
            r <- log_append l (skipn start ents) ;;
            let l' := fst r in
            Ok (if ci - 1 <? persisted l' then set_persisted l' (ci - 1) else l')) ;;
   let last_new := i + N.of_nat (length ents) in
+  if u64_max <? last_new then Panic site_l_overflow else            (* idx + ents.len() *)
   l2 <- commit_to l1 (N.min cmt last_new) ;;
   Ok (l2, Some (ci, last_new)).
 
@@ -264,6 +276,7 @@ Definition must_check_outofbounds (l : raft_log) (low high : N) : Res (option se
   if high <? low then Panic site_l_slice_order else
   f <- first_index l ;;
   if low <? f then Ok (Some Compacted) else
+  if last_index l + 1 <? f then Panic site_l_underflow else         (* last_index() + 1 - first_index *)
   let length_ := last_index l + 1 - f in
   if (low <? f) || (f + length_ <? high) then Panic site_l_slice_bound else Ok None.
 
@@ -302,7 +315,8 @@ Definition slice (l : raft_log) (low high : N) (max : option N) : Res (sres (lis
 
 Definition log_entries (l : raft_log) (i : N) (max : option N) : Res (sres (list entry)) :=
   let last := last_index l in
-  if last <? i then Ok (SOk []) else slice l i (last + 1) max.
+  if last <? i then Ok (SOk []) else
+  if last =? u64_max then Panic site_l_overflow else slice l i (last + 1) max.
 
 Definition is_up_to_date (l : raft_log) (last_i t : N) : Res bool :=
   lt <- last_term l ;;
@@ -314,9 +328,11 @@ Definition applied_index_upper_bound (l : raft_log) : Res N :=
 
 Definition next_entries_since (l : raft_log) (since : N) (max : option N)
   : Res (option (list entry)) :=
+  if since =? u64_max then Panic site_l_overflow else               (* since_idx + 1 *)
   f <- first_index l ;;
   let offset := N.max (since + 1) f in
   ub <- applied_index_upper_bound l ;;
+  if ub =? u64_max then Panic site_l_overflow else                  (* upper bound + 1 *)
   let high := ub + 1 in
   if offset <? high then
     r <- slice l offset high max ;;
@@ -327,10 +343,18 @@ Definition next_entries_since (l : raft_log) (since : N) (max : option N)
   else Ok None.
 
 Definition has_next_entries_since (l : raft_log) (since : N) : Res bool :=
+  if since =? u64_max then Panic site_l_overflow else
   f <- first_index l ;;
   let offset := N.max (since + 1) f in
   ub <- applied_index_upper_bound l ;;
+  if ub =? u64_max then Panic site_l_overflow else
   Ok (offset <? ub + 1).
+
+Definition next_entries (l : raft_log) (max : option N) : Res (option (list entry)) :=
+  next_entries_since l (applied l) max.
+
+Definition has_next_entries (l : raft_log) : Res bool :=
+  has_next_entries_since l (applied l).
 
 Definition log_snapshot (l : raft_log) (request_index to : N) : Res (sres snapshot) :=
   match u_snapshot (unst l) with
